@@ -4,7 +4,10 @@ import random
 KEYWORDS = ['length', 'domain', 'sequence', 'sup-sequence', 'strand', 'complex', 'structure', 'kinetic', 'reaction', 'state', 'macrostate']
 IDCHARS = 'abcdefghijklmnopqrstuvwxyzABCDEFGHIJKLMNOPQRSTUVWXYZ0123456789_-'
 ID_POOL = ['a', 'b', 'c', 'x1', 'toe', 'd12', 'A', 'B', 'Cplx', 'long_name-1', '5', '12', 'e5', 'inf', 'short', 'long', 'i', 'c', 'M', 'f',
-           '_', '-', 'a-b', 'X_1', 'N', 'init', 'e', 'w', 'th', 's', 'h', 'm']
+           '_', '-', 'a-b', 'X_1', 'N', 'init', 'e', 'w', 'th', 's', 'h', 'm',
+           # names that start with, or are, a statement keyword (legal identifiers; see known_findings.txt, fixed C13 entries)
+           'lengthy', 'length', 'domain5', 'sequence', 'sup-sequence-x', 'strand', 'stranded', 'complex_1', 'structure', 'kinetic',
+           'reaction-2', 'state', 'states', 'macrostate', 'length-']
 CUNITS = ['M', 'mM', 'uM', 'nM', 'pM']
 TUNITS = ['s', 'm', 'h']
 RTYPES = ['bind21', 'bind11', 'open', 'condensed', 'branch-3way', 'branch-4way', 'foo']
@@ -14,7 +17,7 @@ def has_keyword_prefix(name):
     return any(name.startswith(k) for k in KEYWORDS)
 
 
-def rand_ident(rng, allow_keyword_prefix=False):
+def rand_ident(rng, allow_keyword_prefix=True):
     for _ in range(50):
         if rng.random() < 0.7:
             n = rng.choice(ID_POOL)
